@@ -433,6 +433,8 @@ impl Lowerer<'_, '_> {
                 })
                 .collect();
 
+            self.new_block(variant_lbl);
+
             let Some(layouts) = variant
                 .1
                 .iter()
@@ -449,7 +451,6 @@ impl Lowerer<'_, '_> {
                 continue;
             };
 
-            self.new_block(variant_lbl);
             self.emit_jump(lbls[0]);
 
             let mut builder = LayoutBuilder::new();
